@@ -73,6 +73,8 @@ class ParserSessionProp(object):
         pass
 
     def generate(self, seed, index, tier, options):
+        if self.is_stress_run(index, tier):
+            return self.generate_stress(seed, index, tier, options)
         if self.is_scale_run(index, tier):
             return self.generate_scale(seed, index, tier, options)
         rng = gen.stream(seed, self.id + ':ops', index)
@@ -93,6 +95,44 @@ class ParserSessionProp(object):
         return {'prop': self.id, 'seed': seed, 'index': index, 'world': wspec, 'ops': ops,
                 'knobs': knobs, 'executor': 'inprocess'}
 
+    # ------------------------------------------------------------ capacity stress runs
+    stress_every = {'quick': 0, 'thorough': 0}
+
+    def is_stress_run(self, index, tier):
+        every = self.stress_every.get(tier, 0)
+        return bool(every) and index % every == 77 % every
+
+    def generate_stress(self, seed, index, tier, options):
+        # capacity stress run: a six-word sentence under an "explosive" grammar (every category pair combines into two
+        # hashed categories) drives one call past 4*10^5 rule-cache entries and 10^6 agenda pops (ordinary runs: hundreds)
+        from depsim import gen
+        rng = gen.stream(seed, self.id + ':stress', index)
+        nprng = gen.np_stream(rng)
+        sentences = []
+        xl = tier == 'thorough'
+        # thorough tier: three different seven-word sentences over a larger category space share one call, so that the
+        # call's rule cache passes 2^20 entries while the third one is being searched
+        lengths = [6, 6, 6, 2] if xl else [6, 2]
+        for sid, n in enumerate(lengths):
+            tag, dep = gen.make_scores(nprng, rng, n, 4, 'continuous')
+            if n > 2:
+                # a very improbable root attachment: every complete parse has a low priority, so the search
+                # visits almost the whole space (and fills the cache) before it pops its first goal item
+                dep[:, 0] = -50.0
+            sentences.append({'words': [f's{sid}x{i}' for i in range(n)], 'tag': gen.arr_to_hex(tag),
+                              'dep': gen.arr_to_hex(dep), 'style': 'continuous', 'rich': False, 'favoured': None})
+        modulus = 20000 if xl else 3000
+        wspec = {'family': 'stress',
+                 'grammar': {'kind': 'explosive', 'modulus': modulus, 'salt': rng.getrandbits(20),
+                             'fanout': 2,      # two hashed results per pair: > 10^6 pops and agenda entries for six words
+                             'categories': ['A', 'B', 'C', 'D'], 'roots': [f'H{k}' for k in range(modulus)], 'lang': 'en'},
+                 'sentences': sentences}
+        op = {'op': 'call', 'batch': [0, 1, 2, 3] if xl else [0, 1, 0], 'processes': 1, 'max_chunk_size': 20, 'unary_penalty': 0.1,
+              'beta': 1e-5, 'use_beta': False, 'pruning_size': 4, 'nbest': 1, 'max_step': 3000000, 'max_length': 250}
+        return {'prop': self.id, 'seed': seed, 'index': index, 'world': wspec, 'ops': [op],
+                'knobs': {'family': 'stress', 'fault_class': 'none', 'nbest': 1}, 'executor': 'inprocess'}
+
+
     # ------------------------------------------------------------ scale runs
     scale_every = {'quick': 0, 'thorough': 0}      # 0 = never; C02/C09/C11 switch them on
 
@@ -108,6 +148,8 @@ class ParserSessionProp(object):
         import numpy
         rng = gen.stream(seed, self.id + ':scale', index)
         nprng = gen.np_stream(rng)
+        if rng.random() < 0.5:
+            return self.generate_dense_long(seed, index, tier, rng, nprng)
         T = rng.choice([64, 130, 260, 425])
         cats = [f'T{k}' for k in range(T)]
         head = rng.random() < 0.5
@@ -133,6 +175,44 @@ class ParserSessionProp(object):
         ops = [dict(cfg, op='call', batch=[0, 1, 2, 3], processes=2, max_chunk_size=20),
                dict(cfg, op='call', batch=[3, 0, 2], processes=2, max_chunk_size=1,
                     schedule={'default_service': 0.05, 'start_delay': {'0': 2.0, '1': 1.0, '2': 0.0}})]
+        return {'prop': self.id, 'seed': seed, 'index': index, 'world': wspec, 'ops': ops,
+                'knobs': {'family': 'scale', 'fault_class': 'none', 'nbest': 1}, 'executor': 'inprocess'}
+
+    def generate_dense_long(self, seed, index, tier, rng, nprng):
+        """the other scale dimension: a sentence of 90-120 words over four categories that all combine with each other
+        and an improbable root attachment, so that the 1-best search pops several million items and its agenda holds
+        more than a million entries before the first complete parse is accepted"""
+        import numpy
+        head = rng.random() < 0.5
+        peaked = rng.random() < 0.6
+        table = {f'X{i} || X{j}': [[f'X{(i + j) % 4}', f'r{i}{j}', f'<r{i}{j}>', head]] for i in range(4) for j in range(4)}
+        sentences = []
+        for sid, n in enumerate([rng.choice([90, 120]), 3]):
+            logits = nprng.normal(0.0, 1.0, size=(n, 4))
+            dl = nprng.normal(0.0, 1.0, size=(n, n + 1))
+            if peaked:
+                # a confident model (as real taggers are): one tag and one head per word carry almost all the mass.
+                # The search dives to a complete analysis within ~10^4 steps while its agenda already holds > 10^6
+                # queued edges, and the goal item then waits (root attachment -8) behind everything within 8 nats
+                tb, db = rng.choice([(7.0, 9.0), (5.0, 6.0)])
+                for i in range(n):
+                    logits[i, rng.randrange(4)] += tb
+                    gold_head = (i - 1 if i > 0 else 1) if head else (i + 1 if i < n - 1 else n - 2)
+                    if n > 1:
+                        dl[i, gold_head + 1] += db
+            tag = (logits - numpy.log(numpy.exp(logits).sum(axis=1, keepdims=True))).astype(numpy.float32)
+            dep = (dl - numpy.log(numpy.exp(dl).sum(axis=1, keepdims=True))).astype(numpy.float32)
+            dep[:, 0] = -8.0
+            sentences.append({'words': [f's{sid}x{i}' for i in range(n)], 'tag': gen.arr_to_hex(tag),
+                              'dep': gen.arr_to_hex(dep), 'style': 'continuous', 'rich': False, 'favoured': None})
+        wspec = {'family': 'scale',
+                 'grammar': {'kind': 'synth', 'heads': 'left' if head else 'right', 'binary': table, 'unary': {},
+                             'categories': ['X0', 'X1', 'X2', 'X3'],
+                             'roots': rng.sample(['X0', 'X1', 'X2', 'X3'], rng.choice([1, 2, 4])), 'lang': 'en'},
+                 'sentences': sentences}
+        cfg = {'unary_penalty': 0.1, 'beta': 1e-5, 'use_beta': False, 'pruning_size': 4, 'nbest': 1,
+               'max_step': 20000000, 'max_length': 250}
+        ops = [dict(cfg, op='call', batch=[1, 0, 1], processes=2, max_chunk_size=20)]
         return {'prop': self.id, 'seed': seed, 'index': index, 'world': wspec, 'ops': ops,
                 'knobs': {'family': 'scale', 'fault_class': 'none', 'nbest': 1}, 'executor': 'inprocess'}
 
